@@ -47,7 +47,9 @@ ASSUMPTIONS = [
 
 
 class Model(Hooks):
-    def __init__(self, cfg, stats):
+    def __init__(self, cfg, stats, params=None, prop=None):
+        self.params = params      # optional (state) -> (min, cap, structure)
+        self.prop = prop or ID
         self.cfg = cfg
         self.stats = stats
         self.viol = []
@@ -59,7 +61,7 @@ class Model(Hooks):
 
     def v(self, kind, key, msg):
         if not self.viol:
-            self.viol.append(V(ID, kind, key, msg))
+            self.viol.append(V(self.prop, kind, key, msg))
 
     # observer: every operation, also the automated ones
     def observe(self, s, op):
@@ -122,12 +124,18 @@ class Model(Hooks):
             return
         if r is None:
             street = s.street
+            if self.params is not None:
+                smin, cap, structure = self.params(s)
+            else:
+                smin = street.min_completion_betting_or_raising_amount
+                cap = street.max_completion_betting_or_raising_count
+                structure = s.betting_structure.name
             r = Round(
                 n=s.player_count, live=s.statuses, stacks=s.stacks,
                 bets=s.bets, first_actor=a,
-                street_min=street.min_completion_betting_or_raising_amount,
-                cap=street.max_completion_betting_or_raising_count,
-                structure=s.betting_structure.name,
+                street_min=smin,
+                cap=cap,
+                structure=structure,
                 bring_in=s.bring_in,
                 first_street=s.street_index == 0,
                 mode=self.cfg['mode'],
